@@ -110,6 +110,9 @@ WARNING_FAULTS = [
     # another instruction on that same line
     ("multiline-wordlist", "parse", "warning", ".even\n7, 10,\n 11, 12 nop"),
     ("multiline-wordlist2", "parse", "warning", ".even\n1, 2,\n\t3 halt\n.word 4"),
+    # very many warnings from one run (a count of diagnostics is not a reason to fail a build)
+    ("warning-flood", "compile", "warning", ".repeat 310 { .byte }\n.byte 0"),
+    ("warning-flood2", "compile", "warning", ".even\n.repeat 100 { .word\n.list }"),
 ]
 
 BARE_DIAG_RE = re.compile(rb"^[^\n]*:\d+:\d+: (Error|Warning): [^\n]*$")
